@@ -9,7 +9,9 @@ import (
 	"encoding/json"
 	"fmt"
 	"os"
+	"reflect"
 	"strconv"
+	"strings"
 )
 
 type verifNondetRec struct {
@@ -182,3 +184,62 @@ func trimDash(k string) string {
 
 // hasDash reports whether k starts with '-'.
 func hasDash(k string) bool { return len(k) > 0 && k[0] == '-' }
+
+// containsEq reports whether s contains '='.
+func containsEq(s string) bool { return strings.Contains(s, "=") }
+
+// disjointHeap reports whether the mutable objects (pointees, map and slice storage) reachable from a
+// and from b are disjoint. Under symgo it is answered from the engine's heap; natively by reflection.
+func disjointHeap(a, b interface{}) bool {
+	sa, sb := map[uintptr]bool{}, map[uintptr]bool{}
+	verifReach(reflect.ValueOf(a), sa, 0)
+	verifReach(reflect.ValueOf(b), sb, 0)
+	for k := range sa {
+		if sb[k] {
+			return false
+		}
+	}
+	return true
+}
+
+func verifReach(v reflect.Value, seen map[uintptr]bool, depth int) {
+	if !v.IsValid() || depth > 12 {
+		return
+	}
+	switch v.Kind() {
+	case reflect.Ptr:
+		if v.IsNil() || seen[v.Pointer()] {
+			return
+		}
+		seen[v.Pointer()] = true
+		verifReach(v.Elem(), seen, depth+1)
+	case reflect.Interface:
+		if !v.IsNil() {
+			verifReach(v.Elem(), seen, depth+1)
+		}
+	case reflect.Struct:
+		for i := 0; i < v.NumField(); i++ {
+			f := v.Type().Field(i)
+			if f.PkgPath != "" {
+				continue // unexported (protobuf internals)
+			}
+			verifReach(v.Field(i), seen, depth+1)
+		}
+	case reflect.Slice:
+		if v.IsNil() || v.Len() == 0 {
+			return
+		}
+		seen[v.Pointer()] = true
+		for i := 0; i < v.Len(); i++ {
+			verifReach(v.Index(i), seen, depth+1)
+		}
+	case reflect.Map:
+		if v.IsNil() {
+			return
+		}
+		seen[v.Pointer()] = true
+		for _, k := range v.MapKeys() {
+			verifReach(v.MapIndex(k), seen, depth+1)
+		}
+	}
+}
